@@ -1,6 +1,7 @@
 """C10 — reported locations and excerpts point at the flagged code."""
 import ast, io, os, tokenize
 import common as C
+import metamorph
 import progs
 
 LEVEL = "proof"
@@ -78,7 +79,7 @@ def shifted(f, L, k):
     return (f[0], f[1], f[2], m(f[3]), tuple(range(m(rng[0]), m(rng[-1]) + 1)), f[5])
 
 
-def run(res, ctx):
+def _run_main(res, ctx):
     rng = C.rng_for(res.seed, "C10")
     thorough = res.tier == "thorough"
     res.rule = ("programs with multi-line constructs (10 fixed + seeded mixes of trigger statements): for every finding — line inside the file and inside its range, range contiguous, "
@@ -181,3 +182,9 @@ def run(res, ctx):
         scratch.close()
         if d is not None:
             d.close()
+
+
+def run(res, ctx):
+    _run_main(res, ctx)
+    # the neighbourhood of every construct of bandit's example files (harness/metamorph.py): model vs implementation on this family's ids
+    metamorph.family(res, ctx, C, None, 500, 3000)
